@@ -59,12 +59,12 @@ fn item(s: &[u8], st: &mut St) -> Option<StructureTag> {
                 // dnattrs = COLON "dn" is an ABNF literal: any case (F37)
                 [a, x] if !a.is_empty() => if x.eq_ignore_ascii_case(b"dn") { (Some(a), true, None) } else { (Some(a), false, Some(x)) },
                 [a, d, r] if !a.is_empty() && d.eq_ignore_ascii_case(b"dn") => (Some(a), true, Some(r)),
-                [e, x] if e.is_empty() => { if x.eq_ignore_ascii_case(b"dn") { st.ambiguous = true; return None; } (None, false, Some(x)) }
+                [e, x] if e.is_empty() => (None, false, Some(x)),      // ":dn:=v" has one reading: the rule named dn (F52)
                 [e, d, r] if e.is_empty() && d.eq_ignore_ascii_case(b"dn") => (None, true, Some(r)),
                 _ => return None,
             };
             if let Some(a) = attr { if !attrdesc(a, st) { return None; } }
-            if let Some(r) = rule { if !oid(r, st) { return None; } if r.eq_ignore_ascii_case(b"dn") && !dn { st.ambiguous = true; } }
+            if let Some(r) = rule { if !oid(r, st) { return None; } if r.eq_ignore_ascii_case(b"dn") && !dn && attr.is_some() { st.ambiguous = true; } }
             let v = unescape(rhs)?;
             let mut kids = vec![];
             if let Some(r) = rule { kids.push(ctx_p(1, r.to_vec())); }
